@@ -292,7 +292,7 @@ func genRel(r *vh.Rng) []bool {
 }
 
 // maxFilters is the guard the main generator stays inside: number of trailing predicates.
-const maxFilters = 1
+const maxFilters = 3
 
 func genCase(r *vh.Rng) (*Case, bool) {
 	if r.Chance(0.55) {
